@@ -241,7 +241,34 @@ func (e *enc) loopEnv(fr *frame, h *ssa.BasicBlock, phiVals map[*ssa.Phi]Term, m
 			env.visitedSort = ls.rng.msort
 		}
 	}
-	env.locals = func(name string) (tval, bool) { return e.lookupLocal(fr, h, phiVals, mem, name) }
+	env.locals = func(name string) (tval, bool) {
+		if strings.HasSuffix(name, "@in") {
+			// the variable's value when this loop was entered
+			base := strings.TrimSuffix(name, "@in")
+			if ls := fr.loops[h]; ls != nil && ls.entryPhi != nil {
+				for _, in := range h.Instrs {
+					phi, ok := in.(*ssa.Phi)
+					if !ok {
+						break
+					}
+					if phi.Comment == base {
+						if t, ok := ls.entryPhi[phi]; ok && t != "" {
+							return e.mkT(t, phi.Type()), true
+						}
+					}
+				}
+				if v, ok := fr.curNames[base]; ok {
+					if a, isAlloc := v.(*ssa.Alloc); isAlloc {
+						if l, ok := fr.loc[a]; ok && l.ty != nil {
+							return e.mkT(e.readIn(ls.memEntry, l), l.ty), true
+						}
+					}
+				}
+			}
+			return e.lookupLocal(fr, h, phiVals, mem, base)
+		}
+		return e.lookupLocal(fr, h, phiVals, mem, name)
+	}
 	// a parameter that the body re-assigns (and that is not kept in a cell): the clause sees its current value
 	for _, p := range fr.fn.Params {
 		if cv, ok := fr.curNames[p.Name()]; ok && cv != ssa.Value(p) {
